@@ -765,6 +765,9 @@ class DoneProp(core.Prop):
         ]
         self._runtime = []
 
+    def runtime_failures_of_replay(self):
+        return list(self._runtime)
+
     def _note_runtime(self, what, desc):
         if len(self._runtime) < 3:
             self._runtime.append((what, desc))
